@@ -195,6 +195,10 @@ def run(tier):
             if data is not None and exe and shape:
                 mode = 'shape'
                 reproduced, out = native(exe, mode, data, shape)
+            elif 'O_walk_unescape' in f['description'] and exe:
+                # the walk drops the payload: replay the round trip of a key / value that needs unescaping
+                mode, data, note = 'rt', b'a"b\\c\n', 'fixed witness string with characters that toJSON escapes; '
+                reproduced, out = native(exe, mode, data)
             elif data is not None and exe:
                 reproduced, out = native(exe, mode, data)
             payload = {'property': 'C15', 'engine': 'jsonstr', 'harness': r['name'], 'obligation': f['property'], 'description': f['description'],
